@@ -105,7 +105,7 @@ class Scenario:
     or seconds until the connection is lost.  After the script is exhausted the factory parks forever."""
 
     def __init__(self, script, close_step=None, threshold=None, sleep_sec=None, max_delay=None, horizon=400.0, max_steps=5000,
-                 watch=None) -> None:
+                 watch=None, epoch=None) -> None:
         import han.meter_connection as mc
 
         self.mc = mc
@@ -119,15 +119,24 @@ class Scenario:
         self.watch = watch
         loop = self.loop = VLoop()
         asyncio.set_event_loop(loop)
+        ep = epoch or EPOCH  # UTC reading of the wall clock at loop time 0
+        ep_ts = ep.replace(tzinfo=_dt.timezone.utc).timestamp()
         if hasattr(mc, "datetime"):
             class VDT:  # the hook the property names: the manager's wall clock reads the virtual clock
                 @staticmethod
                 def utcnow():
-                    return EPOCH + _dt.timedelta(seconds=loop.time())
+                    return ep + _dt.timedelta(seconds=loop.time())
 
                 @staticmethod
                 def now(tz=None):
-                    return EPOCH + _dt.timedelta(seconds=loop.time())
+                    return _dt.datetime.fromtimestamp(ep_ts + loop.time(), tz)  # local time of the process if tz is None
+
+                @staticmethod
+                def today():
+                    return _dt.datetime.fromtimestamp(ep_ts + loop.time())
+
+                def __getattr__(self, name):
+                    return getattr(_dt.datetime, name)
             mc.datetime = types.SimpleNamespace(datetime=VDT, timedelta=_dt.timedelta, timezone=_dt.timezone)
             self.wall_is_virtual = True
         else:
